@@ -11,10 +11,31 @@ open Tera
 set_option linter.unusedSimpArgs false
 set_option linter.unusedVariables false
 
-/-- a result is acceptable from state `s`: no model-only outcome, and on success no more tokens
-than before (strictly fewer when `strict`) -/
+/-- `l'` is what is left of `l` after consuming a prefix (a non-empty one when `strict`) -/
+def Left (strict : Bool) (l' l : List Tok) : Prop :=
+  l' <:+ l ∧ (strict = true → l'.length < l.length)
+
+theorem Left.refl (l : List Tok) : Left false l l := ⟨List.suffix_refl l, by simp⟩
+
+theorem Left.trans {b1 b2 b3 : Bool} {l1 l2 l3 : List Tok} (hb : b3 = true → b1 = true ∨ b2 = true)
+    (h12 : Left b1 l2 l1) (h23 : Left b2 l3 l2) : Left b3 l3 l1 := by
+  refine ⟨h23.1.trans h12.1, fun h3 => ?_⟩
+  have e1 := h12.1.length_le
+  have e2 := h23.1.length_le
+  rcases hb h3 with h | h
+  · have := h12.2 h; omega
+  · have := h23.2 h; omega
+
+theorem Left.weaken {b : Bool} {l' l : List Tok} (h : Left b l' l) : Left false l' l :=
+  ⟨h.1, by simp⟩
+
+theorem Left.length_le {b : Bool} {l' l : List Tok} (h : Left b l' l) : l'.length ≤ l.length :=
+  h.1.length_le
+
+/-- a result is acceptable from state `s`: no model-only outcome, and on success what is left of
+the tokens is a suffix of what was there (a proper one when `strict`) -/
 def okRes {α} (strict : Bool) (s : PState) : Res α → Prop
-  | .ok _ s' => if strict then s'.toks.length < s.toks.length else s'.toks.length ≤ s.toks.length
+  | .ok _ s' => Left strict s'.toks s.toks
   | .err => True
   | .panic _ => False
   | .fuel => False
@@ -25,61 +46,45 @@ def G {α} (strict : Bool) (x : P α) : Prop := ∀ s, okRes strict s (x s)
 /-- `x` is acceptable from every state with fewer than `n` tokens -/
 def GN {α} (n : Nat) (x : P α) : Prop := ∀ s, s.toks.length < n → okRes false s (x s)
 
-theorem okRes_weaken {α} {s : PState} {r : Res α} (h : okRes true s r) : okRes false s r := by
-  cases r <;> simp_all [okRes]; omega
+theorem okRes_weaken {α} {b : Bool} {s : PState} {r : Res α} (h : okRes b s r) : okRes false s r := by
+  cases r <;> simp_all [okRes]
+  exact h.weaken
 
 theorem G.weaken {α} {x : P α} (h : G true x) : G false x := fun s => okRes_weaken (h s)
 theorem G.toGN {α} {x : P α} (n : Nat) (h : G false x) : GN n x := fun s _ => h s
 
-theorem G.pure {α} (a : α) : G false (Pure.pure a : P α) := by intro s; simp [okRes]
-theorem G.pure' {α} (a : α) : G false (P.pure a : P α) := by intro s; simp [okRes]
+theorem G.pure {α} (a : α) : G false (Pure.pure a : P α) := by
+  intro s; simp [okRes, Left.refl]
+theorem G.pure' {α} (a : α) : G false (P.pure a : P α) := by intro s; simp [okRes, Left.refl]
 theorem G.err {α} (b : Bool) : G b (P.err : P α) := by intro s; simp [okRes]
-theorem G.panicNo : True := trivial
+
+/-- the generic sequencing rule -/
+theorem okRes_bind {α β} {b1 b2 b3 : Bool} (hb : b3 = true → b1 = true ∨ b2 = true)
+    {x : P α} {f : α → P β} {s : PState} (h1 : okRes b1 s (x s))
+    (hf : ∀ a s', Left b1 s'.toks s.toks → okRes b2 s' (f a s')) : okRes b3 s ((x >>= f) s) := by
+  simp only [bind_def, P.bind_apply]
+  cases hr : x s with
+  | ok a s' =>
+    rw [hr] at h1
+    have h2 := hf a s' h1
+    simp only []
+    cases hr2 : f a s' with
+    | ok c s'' => rw [hr2] at h2; exact Left.trans hb h1 h2
+    | err => simp [okRes]
+    | panic m => rw [hr2] at h2; simp [okRes] at h2
+    | fuel => rw [hr2] at h2; simp [okRes] at h2
+  | err => simp [okRes]
+  | panic m => rw [hr] at h1; simp [okRes] at h1
+  | fuel => rw [hr] at h1; simp [okRes] at h1
 
 theorem G.bind_ff {α β} {x : P α} {f : α → P β} (hx : G false x) (hf : ∀ a, G false (f a)) :
-    G false (x >>= f) := by
-  intro s
-  have h1 := hx s
-  simp only [bind_def, P.bind_apply]
-  cases hr : x s with
-  | ok a s' =>
-    rw [hr] at h1
-    have h2 := hf a s'
-    simp only [okRes, Bool.false_eq_true, if_false] at h1
-    cases hr2 : f a s' <;> simp_all [okRes]; omega
-  | err => simp [okRes]
-  | panic m => rw [hr] at h1; simp [okRes] at h1
-  | fuel => rw [hr] at h1; simp [okRes] at h1
+    G false (x >>= f) := fun s => okRes_bind (by simp) (hx s) (fun a s' _ => hf a s')
 
 theorem G.bind_tf {α β} {x : P α} {f : α → P β} (hx : G true x) (hf : ∀ a, G false (f a)) :
-    G true (x >>= f) := by
-  intro s
-  have h1 := hx s
-  simp only [bind_def, P.bind_apply]
-  cases hr : x s with
-  | ok a s' =>
-    rw [hr] at h1
-    have h2 := hf a s'
-    simp only [okRes, if_true] at h1
-    cases hr2 : f a s' <;> simp_all [okRes]; omega
-  | err => simp [okRes]
-  | panic m => rw [hr] at h1; simp [okRes] at h1
-  | fuel => rw [hr] at h1; simp [okRes] at h1
+    G true (x >>= f) := fun s => okRes_bind (by simp) (hx s) (fun a s' _ => hf a s')
 
 theorem G.bind_ft {α β} {x : P α} {f : α → P β} (hx : G false x) (hf : ∀ a, G true (f a)) :
-    G true (x >>= f) := by
-  intro s
-  have h1 := hx s
-  simp only [bind_def, P.bind_apply]
-  cases hr : x s with
-  | ok a s' =>
-    rw [hr] at h1
-    have h2 := hf a s'
-    simp only [okRes, Bool.false_eq_true, if_false] at h1
-    cases hr2 : f a s' <;> simp_all [okRes]; omega
-  | err => simp [okRes]
-  | panic m => rw [hr] at h1; simp [okRes] at h1
-  | fuel => rw [hr] at h1; simp [okRes] at h1
+    G true (x >>= f) := fun s => okRes_bind (by simp) (hx s) (fun a s' _ => hf a s')
 
 theorem G.ite {α} {b : Bool} {c : Prop} [Decidable c] {x y : P α} (hx : G b x) (hy : G b y) :
     G b (if c then x else y) := by split <;> assumption
@@ -88,34 +93,12 @@ theorem GN.ite {α} {n : Nat} {c : Prop} [Decidable c] {x y : P α} (hx : GN n x
     GN n (if c then x else y) := by split <;> assumption
 
 theorem GN.bind_strict {α β} {n : Nat} {x : P α} {f : α → P β} (hx : G true x)
-    (hf : ∀ a, GN n (f a)) : GN (n + 1) (x >>= f) := by
-  intro s hs
-  have h1 := hx s
-  simp only [bind_def, P.bind_apply]
-  cases hr : x s with
-  | ok a s' =>
-    rw [hr] at h1
-    simp only [okRes, if_true] at h1
-    have h2 := hf a s' (by omega)
-    cases hr2 : f a s' <;> simp_all [okRes]; omega
-  | err => simp [okRes]
-  | panic m => rw [hr] at h1; simp [okRes] at h1
-  | fuel => rw [hr] at h1; simp [okRes] at h1
+    (hf : ∀ a, GN n (f a)) : GN (n + 1) (x >>= f) := fun s hs =>
+  okRes_bind (b2 := false) (by simp) (hx s) (fun a s' h => hf a s' (by have := h.2 rfl; omega))
 
 theorem GN.bind_weak {α β} {n : Nat} {x : P α} {f : α → P β} (hx : G false x)
-    (hf : ∀ a, GN n (f a)) : GN n (x >>= f) := by
-  intro s hs
-  have h1 := hx s
-  simp only [bind_def, P.bind_apply]
-  cases hr : x s with
-  | ok a s' =>
-    rw [hr] at h1
-    simp only [okRes, Bool.false_eq_true, if_false] at h1
-    have h2 := hf a s' (by omega)
-    cases hr2 : f a s' <;> simp_all [okRes]; omega
-  | err => simp [okRes]
-  | panic m => rw [hr] at h1; simp [okRes] at h1
-  | fuel => rw [hr] at h1; simp [okRes] at h1
+    (hf : ∀ a, GN n (f a)) : GN n (x >>= f) := fun s hs =>
+  okRes_bind (b2 := false) (by simp) (hx s) (fun a s' h => hf a s' (by have := h.length_le; omega))
 
 /-! ### primitives -/
 
